@@ -379,7 +379,11 @@ def run_family(ctx, sut, monitors, fpm, rng, chain):
                 elif key == "enum":
                     held.append({"in_place": 1})
                 elif key == "dependencies":
-                    held["zz"] = ["in_place"]
+                    lists = [k for k, v in held.items() if isinstance(v, list)]
+                    if lists and rng.random() < 0.6:
+                        held[rng.choice(sorted(lists))].append("in_place")   # one level further down
+                    else:
+                        held["zz"] = ["in_place"]
                 else:
                     held["^in_place"] = sut.Nothing()
                 ctx.count("childop.in_place." + key)
